@@ -312,13 +312,16 @@ theorem dstep_valid (ds : DSt) (op : DOp) (hv : DValid ds) (hs : DOpOK op) : DVa
   refine ⟨?_, dstep_links ds op hv.links hs⟩
   cases op with
   | sheet o => rw [dstep_sheet_st]; exact step_valid ds.st o hv.sheet hs
-  | newStyle path items form => rw [dstep_st _ _ (by intro o h; cases h)]; exact hv.sheet
-  | shareStyle path src => rw [dstep_st _ _ (by intro o h; cases h)]; exact hv.sheet
-  | blockText path items => rw [dstep_st _ _ (by intro o h; cases h)]; exact hv.sheet
-  | setProp path name wf empty replace => rw [dstep_st _ _ (by intro o h; cases h)]; exact hv.sheet
-  | setPropObj path name => rw [dstep_st _ _ (by intro o h; cases h)]; exact hv.sheet
-  | removeProp path name => rw [dstep_st _ _ (by intro o h; cases h)]; exact hv.sheet
-  | sharePropObj path src i => rw [dstep_st _ _ (by intro o h; cases h)]; exact hv.sheet
+  | newStyle path items form => rw [dstep_st _ _ (by intro o h; cases h) (by rintro (⟨_, _, h⟩ | ⟨_, _, h⟩ | ⟨_, _, h⟩) <;> cases h)]; exact hv.sheet
+  | shareStyle path src => rw [dstep_st _ _ (by intro o h; cases h) (by rintro (⟨_, _, h⟩ | ⟨_, _, h⟩ | ⟨_, _, h⟩) <;> cases h)]; exact hv.sheet
+  | blockText path items => rw [dstep_st _ _ (by intro o h; cases h) (by rintro (⟨_, _, h⟩ | ⟨_, _, h⟩ | ⟨_, _, h⟩) <;> cases h)]; exact hv.sheet
+  | setProp path name wf empty replace => rw [dstep_st _ _ (by intro o h; cases h) (by rintro (⟨_, _, h⟩ | ⟨_, _, h⟩ | ⟨_, _, h⟩) <;> cases h)]; exact hv.sheet
+  | setPropObj path name => rw [dstep_st _ _ (by intro o h; cases h) (by rintro (⟨_, _, h⟩ | ⟨_, _, h⟩ | ⟨_, _, h⟩) <;> cases h)]; exact hv.sheet
+  | removeProp path name => rw [dstep_st _ _ (by intro o h; cases h) (by rintro (⟨_, _, h⟩ | ⟨_, _, h⟩ | ⟨_, _, h⟩) <;> cases h)]; exact hv.sheet
+  | sharePropObj path src i => rw [dstep_st _ _ (by intro o h; cases h) (by rintro (⟨_, _, h⟩ | ⟨_, _, h⟩ | ⟨_, _, h⟩) <;> cases h)]; exact hv.sheet
+  | rawDelete path i => exact absurd hs (by simp [DOpOK])
+  | rawInsert s i => exact absurd hs (by simp [DOpOK])
+  | reinsert path index => exact absurd hs (by simp [DOpOK])
 
 /-- the empty sheet, where every rule object yet to be made comes with its own block, is valid -/
 theorem dempty_valid (raising : Bool) : DValid (DSt.init (St.empty raising)) :=
@@ -412,6 +415,51 @@ theorem share_property_breaks_links :
   refine ⟨⟨PId.made 0, by decide, by decide, by decide⟩, fun h => ?_⟩
   have := h.propUp (BId.init 1) (PId.made 0) (by decide)
   revert this
+  decide
+
+/-! ## edits that go around the DOM methods (`Model/SheetRaw.lean`): what survives, what breaks -/
+
+/-- `del sheet.cssRules[i]` / `del rule.cssRules[i]` (the live list object; the package's own tests do it) keeps the
+TREE valid — order, nested kinds, parent links of every rule that stays — and keeps blocks and properties linked.
+FULL statement (`Valid → Valid`) is false: the removed object still names its container, see
+`raw_delete_breaks_valid`. -/
+theorem raw_delete_keeps_tree_partial (ds : DSt) (path : List Nat) (i : Int) (hv : ValidTree ds.st) (hl : DLinks ds) :
+    ValidTree (dstep ds (.rawDelete path i)).1.st ∧ DLinks (dstep ds (.rawDelete path i)).1 := by
+  refine ⟨?_, dstep_raw_links ds _ hl (Or.inl ⟨path, i, rfl⟩)⟩
+  have hlive : Live ds.st := ⟨hv.kids, hv.links, hv.ids⟩
+  show ValidTree (if path.isEmpty then rawDelete ds.st i else nRawDelete ds.st path i).1
+  split
+  · have := rawDelete_live ds.st i hlive
+    exact ⟨rawDelete_topOK ds.st i hv.top, this.kids, this.links, this.ids⟩
+  · have := nRawDelete_live ds.st path i hlive
+    exact ⟨nRawDelete_topOK ds.st path i hv.top, this.kids, this.links, this.ids⟩
+
+/-- `a{}` then `del sheet.cssRules[0]`: the removed rule object still names the sheet — `Valid` is lost (known finding
+`C09-raw-list-edit`); the same one level down: the removed rule still names the @media rule -/
+theorem raw_delete_breaks_valid :
+    let ds := drun (DSt.init St.empty) [.sheet (.add styleS false)]
+    Valid ds.st ∧ ¬ Valid (dstep ds (.rawDelete [] 0)).1.st ∧
+      ¬ Valid (drun (DSt.init St.empty) [.sheet (.add (mediaS [styleS]) false), .rawDelete [0] 0]).st := by
+  simp only [← validB_iff]; decide
+
+/-- `@import "x";` then `sheet.cssRules.insert(0, <style rule>)`: no position check, no back pointer — the order and
+the links are lost -/
+theorem raw_insert_breaks_order_and_links :
+    let ds := drun (DSt.init St.empty) [.sheet (.add importS false), .rawInsert styleS 0]
+    ¬ TopOK ds.st.rules ∧ ¬ (∀ r ∈ ds.st.rules, r.linksOK none true = true) := by
+  decide
+
+/-- a contained rule object handed to `sheet.insertRule` goes through the position checks: the ORDER is kept — -/
+theorem reinsert_keeps_order (ds : DSt) (path : List Nat) (index : Option Int) (h : TopOK ds.st.rules) :
+    TopOK (dstep ds (.reinsert path index)).1.st.rules :=
+  reinsert_topOK ds.st path index h
+
+/-- — but it is not taken out of its old place: `@media{a{}}` then `sheet.insertRule(media.cssRules[0], 1)` returns 1,
+the object stands in both lists, names the @media rule as parent rule and the sheet as parent sheet (known finding
+`C09-rule-reinserted`; the package's own `resolveImports` moves rule objects this way) -/
+theorem reinsert_breaks_links :
+    let r := dstep (drun (DSt.init St.empty) [.sheet (.add (mediaS [styleS]) false)]) (.reinsert [0, 0] (some 1))
+    r.2 = .ok 1 ∧ kindsOf r.1.st.rules = [.media, .style] ∧ ¬ (∀ x ∈ r.1.st.rules, x.linksOK none true = true) := by
   decide
 
 /-- non-vacuity of T9.5: a history over rules, blocks and properties of all forms satisfies `DOpOK`, and ends with
